@@ -10,11 +10,11 @@ open Ruma Ruma.Html Ruma.Spec.HtmlAllow Ruma.Spec.HtmlPolicy
 
 /-- One element of the allow-list grammar, `d` element ancestors deep: a permitted tag (not
 `mx-reply` when the reply fallback is to be removed) within the depth limit, carrying only
-attributes permitted for it, URI attributes with a permitted scheme, `code` classes of the form
+HTML attributes (no namespace) permitted for it, URI attributes with a permitted scheme, `code` classes of the form
 `language-…`. -/
 def ElemFine (m : Mode) (removeReply : Bool) (d : Nat) (n : Str) (as : List Attr) : Prop :=
   elemAllowed n = true ∧ (removeReply = true → n ≠ replyName) ∧ d < maxDepth ∧
-  ∀ a ∈ as, attrAllowed n a.name = true ∧ valueAllowed m n a.name a.value = true ∧
+  ∀ a ∈ as, a.ns = [] ∧ attrAllowed n a.name = true ∧ valueAllowed m n a.name a.value = true ∧
     (a.name = className → ∀ cl ∈ splitWs a.value, classAllowed n cl = true)
 
 /-- A well-nested document built only from allowed elements, attributes, schemes and classes
@@ -25,7 +25,7 @@ def Allowed (m : Mode) (removeReply : Bool) (d : Nat) (f : List Node) : Prop :=
 /-- Executable form of `ElemFine` (used by the driver to recognise grammar documents). -/
 def elemFineB (m : Mode) (removeReply : Bool) (d : Nat) (n : Str) (as : List Attr) : Bool :=
   elemAllowed n && !(removeReply && n == replyName) && decide (d < maxDepth) &&
-  as.all (fun a => attrAllowed n a.name && valueAllowed m n a.name a.value &&
+  as.all (fun a => a.ns.isEmpty && attrAllowed n a.name && valueAllowed m n a.name a.value &&
     (a.name != className || (splitWs a.value).all (classAllowed n)))
 
 mutual
